@@ -1140,6 +1140,11 @@ def call_builtin(it, f, args, kwargs, node):
         return VConst(r) if r is not None else VUnknown("isinstance", "bool")
     if f == "hasattr":
         ok, nm = const_of(args[1])
+        declared = getattr(args[0], "has_attrs", None)  # an unknown object whose interface the context declares (e.g. an open file)
+        if ok and declared is not None:
+            return VConst(nm in declared)
+        if ok and isinstance(args[0], VUnknown) and args[0].kind == "str":
+            return VConst(hasattr("", nm))
         r = it.has_attr(args[0], nm) if ok else None
         return VConst(r) if r is not None else VUnknown("hasattr", "bool")
     if f == "getattr":
